@@ -55,6 +55,8 @@ type SymArrVal struct {
 	C []*Term
 	// optional tighter range for NeedRange arrays
 	RLo, RHi *big.Int
+	// FromStr: the array is an unmodified []byte(s) copy of this string
+	FromStr *Term
 }
 
 const maxConcArr = 8192
